@@ -20,7 +20,6 @@
 #include <sys/mman.h>
 #include <signal.h>
 #include <unistd.h>
-#include <malloc.h>
 #include <cstdio>
 #include <cstring>
 #include <fstream>
@@ -33,6 +32,16 @@
 #include "forkrun.hpp"
 
 typedef boost::property_tree::ptree ptree;
+
+// ---------------------------------------------------------------------------------------------
+// live C++ heap blocks (replaced global operator new/delete): create/destroy cycles must return to the start value
+static long g_live_blocks = 0;
+void *operator new(std::size_t n) { void *p = std::malloc(n ? n : 1); if (!p) throw std::bad_alloc(); ++g_live_blocks; return p; }
+void *operator new[](std::size_t n) { void *p = std::malloc(n ? n : 1); if (!p) throw std::bad_alloc(); ++g_live_blocks; return p; }
+void operator delete(void *p) noexcept { if (p) { --g_live_blocks; std::free(p); } }
+void operator delete[](void *p) noexcept { if (p) { --g_live_blocks; std::free(p); } }
+void operator delete(void *p, std::size_t) noexcept { if (p) { --g_live_blocks; std::free(p); } }
+void operator delete[](void *p, std::size_t) noexcept { if (p) { --g_live_blocks; std::free(p); } }
 
 // ---------------------------------------------------------------------------------------------
 // guarded arrays
@@ -448,7 +457,7 @@ struct Iso { conv_info c1, c2; std::vector<double> x1, x2, xm; };
 
 static void life_run(const std::vector<int> &order, const Sys &a, const Sys &b, const PSet &ps, Iso &res) {
     amgclHandle P = nullptr, S1 = nullptr, S2 = nullptr, M = nullptr;
-    res.x1.assign(a.n, 0.0); res.x2.assign(b.n, 0.0); res.xm.assign(a.n, 0.0);
+    std::fill(res.x1.begin(), res.x1.end(), 0.0); std::fill(res.x2.begin(), res.x2.end(), 0.0); std::fill(res.xm.begin(), res.xm.end(), 0.0);
     for (int op : order) switch (op) {
         case 0: P = c_params(ps); break;
         case 1: S1 = amgcl_solver_create(a.n, a.ptr.data(), a.col.data(), a.val.data(), P); break;
@@ -505,19 +514,19 @@ static void run_life() {
             Out o{o0};
             const std::vector<int> iso = {0, 1, 5, 8, 2, 6, 9, 3, 7, 10, 4};
             Iso ref, warm, got;
-            life_run(iso, a, b, ps, warm);                 // warm-up: one-time allocations of the C++ runtime
-            struct mallinfo2 m0 = mallinfo2();
+            for (Iso *q : {&ref, &warm, &got}) { q->x1.assign(a.n, 0.0); q->x2.assign(b.n, 0.0); q->xm.assign(a.n, 0.0); }
+            life_run(iso, a, b, ps, warm);                 // warm-up: one-time allocations of the C++ runtime (locales, ...)
+            long l0 = g_live_blocks;
             life_run(iso, a, b, ps, ref);
-            struct mallinfo2 m1 = mallinfo2();
+            long l1 = g_live_blocks;
             life_run(orders[oi], a, b, ps, got);
-            struct mallinfo2 m2 = mallinfo2();
+            long l2 = g_live_blocks;
             auto same = [](const conv_info &p, const conv_info &q) { return p.iterations == q.iterations && !std::memcmp(&p.residual, &q.residual, 8); };
-            if (!same(got.c1, ref.c1) || got.x1.size() != ref.x1.size() || std::memcmp(got.x1.data(), ref.x1.data(), ref.x1.size() * 8)) o.fail("life.solver1_result", "differs from the isolated run");
+            if (!same(got.c1, ref.c1) || std::memcmp(got.x1.data(), ref.x1.data(), ref.x1.size() * 8)) o.fail("life.solver1_result", "differs from the isolated run");
             if (!same(got.c2, ref.c2) || std::memcmp(got.x2.data(), ref.x2.data(), ref.x2.size() * 8)) o.fail("life.solver2_result", "differs from the isolated run");
             if (std::memcmp(got.xm.data(), ref.xm.data(), ref.xm.size() * 8)) o.fail("life.precond_result", "differs from the isolated run");
-            // Iso vectors of `ref`/`got` are live in both measurements alike: compare growth of in-use bytes per cycle
-            long d_iso = (long)m1.uordblks - (long)m0.uordblks, d_got = (long)m2.uordblks - (long)m1.uordblks;
-            if (d_got != d_iso) o.fail("life.heap_not_returned", "in-use heap grew by " + std::to_string(d_got) + " bytes over the cycle, the isolated cycle by " + std::to_string(d_iso));
+            if (l1 != l0) o.fail("life.heap_not_returned", "isolated create/solve/destroy cycle leaves " + std::to_string(l1 - l0) + " live heap blocks");
+            if (l2 != l1) o.fail("life.heap_not_returned", "this order leaves " + std::to_string(l2 - l1) + " live heap blocks after every handle was destroyed");
             if (ref.c1.iterations >= 1) o.count("lifecycle_solves_with_iterations");
             o.count("lifecycle_orders_run");
         }, 120.0);
